@@ -244,17 +244,28 @@ theorem counterexample_float_int :
   cases e2
 
 /-- finding `none-attribute-hash:set-of-structures`: trusted instances keep a null as an attribute
-    holding None, which `Structure.__hash__` (= hash of `str(self)`) sees: two elements that are
-    `==` both stay in the set -/
+    holding None, which `Structure.__hash__` (= hash of `str(self)`) sees but `Structure.__eq__` does
+    not (`PyVal.pyEq` reads an attribute holding None like an absent one): the two elements the
+    trusted path builds are `==` and spelled differently (CPython's set, which buckets by hash, keeps
+    both; the model's sets are keyed by `==` alone and cannot show the two buckets), while the
+    regular path builds two identically spelled elements -/
 def fooOpt : FieldDecl := mkCls "Foo" [] [("a", .integer {}), ("b", .integer {})]
 def cxSetStruct : FieldDecl := mkCls "A" ["m"] [("m", .setOf false fooOpt {})]
 def cxSetStructDoc : PyVal :=
   .dict [(.str "m", .list [.dict [(.str "a", .int 1)], .dict [(.str "a", .int 1), (.str "b", .none)]])]
 theorem counterexample_set_of_structures :
     eligible noMappers cxSetStruct = true
-    ∧ (match deserialize exO {} cxSetStruct cxSetStructDoc,
-             deserializeTrusted noMappers exO {} cxSetStruct cxSetStructDoc with
-        | .ok (.inst _ [(_, .set _ xs)]), .ok (.inst _ [(_, .set _ ys)]) => xs.length == 1 && ys.length == 2
+    ∧ (match deserialize exO {} cxSetStruct cxSetStructDoc with
+        | .ok (.inst _ [(_, .set _ xs)]) => xs.length == 1
+        | _ => false) = true
+    ∧ (match deserialize exO {} fooOpt (.dict [(.str "a", .int 1)]),
+             deserialize exO {} fooOpt (.dict [(.str "a", .int 1), (.str "b", .none)]) with
+        | .ok (.inst _ a1), .ok (.inst _ a2) => a1.length == a2.length
+        | _, _ => false) = true
+    ∧ (match deserializeTrusted noMappers exO {} fooOpt (.dict [(.str "a", .int 1)]),
+             deserializeTrusted noMappers exO {} fooOpt (.dict [(.str "a", .int 1), (.str "b", .none)]) with
+        | .ok (.inst c1 a1), .ok (.inst c2 a2) =>
+            PyVal.pyEq (.inst c1 a1) (.inst c2 a2) && a1.length == 1 && a2.length == 2
         | _, _ => false) = true := by
   decide
 
@@ -321,7 +332,7 @@ theorem trusted_equiv_example :
     ∧ isOk (deserialize exO { keepUndefined := false } exOuter exDoc) = true
     ∧ (match deserialize exO { keepUndefined := false } exOuter exDoc,
              deserializeTrusted noMappers exO { keepUndefined := false } exOuter exDoc with
-        | .ok x, .ok y => eqv x y && !(PyVal.pyEq x y)
+        | .ok (.inst cx ax), .ok (.inst cy ay) => eqv (.inst cx ax) (.inst cy ay) && ax.length != ay.length
         | _, _ => false) = true := by
   decide
 
